@@ -52,9 +52,16 @@ MergeCases(z) ==
      A \in Lists(gG, gN, 1), B \in UNION {ListsN(n, gG, 1) : n \in 0..gN},
      sa \in IdMaps("A"), sb \in IdMaps("B"), nilA \in {0, 1}}
 
-\* Optimize / RemoveStyling: reference graphs
-RefCases(op) == {[op |-> op, a |-> 0, b |-> 0, pre |-> S, pre2 |-> MkSubs(<<>>)] :
-                   S \in {x \in RefLists(gN) : InPart(x.items)}}
+\* Optimize / RemoveStyling: reference graphs (partitioned on the style map)
+StyleMapSeq == SetToSeq(StyleMaps)
+RefCasesFor(op, sm, rm) ==
+  UNION {{[op |-> op, a |-> 0, b |-> 0, pre2 |-> MkSubs(<<>>),
+           pre |-> [items |-> [i \in 1..n |-> RefCue(i, cs[i][1], cs[i][2], cs[i][3])],
+                    styles |-> sm, regions |-> rm, snil |-> FALSE, rnil |-> FALSE]] :
+            cs \in [1..n -> (DOMAIN sm \cup {""}) \X (DOMAIN rm \cup {""}) \X (DOMAIN sm \cup {""})]} : n \in 1..gN}
+RefCases(op) ==
+  UNION {UNION {RefCasesFor(op, StyleMapSeq[i], rm) : rm \in RegionMaps(StyleMapSeq[i])} :
+           i \in {j \in DOMAIN StyleMapSeq : j % gPS = gP}}
 
 Cases(z) ==
   CASE gOp = "add" -> AddCases(0)
